@@ -7,10 +7,11 @@ BASE = json.load(open('/root/.vp/BASELINE.json'))['cmd']
 SETUP = "cd /verif/engine && GOFLAGS=-mod=mod GOPROXY=off GOSUMDB=off GOTOOLCHAIN=local go build -o ../bin/vcheck ./cmd/vcheck"
 TECH = "bounded symbolic execution of the real code's go/ssa + SMT (z3) per-path obligations; native replay of every model"
 NOTE = ("Trusted: go/ssa construction (x/tools v0.29.0), the engine's instruction semantics and stubs (validated per run by executing "
-        "solver witnesses and random inputs on both the engine and the real build), z3 4.8.12. Bounds and stubs are listed in the evidence file.")
+        "solver witnesses and random inputs on both the engine and the real build), z3 5.1.0 (z3-new). Bounds and stubs are listed in the evidence file.")
 
 # property -> (claimed?, level text, design ref)
 CLAIMED = {
+ "C08": ("Encode/Decode/validators are decided for every code point and every septet pair against an independently transcribed TS 23.038 table; Pack/Unpack and the transformers for every septet vector up to the stated length against the bit-position formula. Bounded by vector length only.", "DESIGN.md 8 C08"),
  "C17": ("All 2^64 ids and all in-range field tuples are decided by bit-vector queries over the SSA of CombineMsgID/SplitMsgID; the only bound is the machine word.", "DESIGN.md 8 C17"),
 }
 NA_REASON = "check not built yet (engine under construction); see DESIGN.md section 8"
